@@ -120,3 +120,26 @@ def check_c16(prop, tier, replay):
                       "snapshots with external files cannot be produced on the in-memory file system "
                       "(rsm.Files.PrepareFiles uses os.Link): that path is not exercised",
                   ])
+
+
+def check_c20(prop, tier, replay):
+    n, tr = (8, 14) if tier == "quick" else (24, 56)
+    batches = [{"first": k * tr, "traces": tr, "mode": "import", "dur": 0,
+                "store": "tan" if k % 3 == 2 else None} for k in range(n)]
+    return tv_run(prop, tier, replay, harness_dirs=HARNESS, pkg=".", test="TestVerifNhsim",
+                  trace_module="ImportTrace", tag="IM-REPORT", count_tag="IM-COUNT",
+                  batches=batches, env_of=_env, mc=[("MCImport", "MC_Import.cfg", 900, 8)], mc_deadlock=False,
+                  mc_expect_violation=[("MCImport", "MC_Import_vacuity.cfg", "NothingAccepted")],
+                  level="exploration", stats_tag="NHSTATS", panic_ok=True, max_workers=8,
+                  build_name="nhsim",
+                  what="quorum-loss repair by ImportSnapshot: wrong accept/refuse decision, refused import modified "
+                       "existing data, or the restarted shard does not have the given members / exported state / a "
+                       "leader / does not accept a proposal",
+                  sig_of=lambda op, f: "C20:%s" % op,
+                  assumptions=[
+                      "histories, export points and member lists are seeded samples of the case table of Import.tla; "
+                      "the accept/refuse rule itself is enumerated exhaustively by TLC (MCImport)",
+                      "corruptions of the 1 KB header block of the snapshot file are outside this check (known finding "
+                      "C14: the header block is not protected)",
+                      "external snapshot files cannot be produced on the in-memory file system",
+                  ])
